@@ -17,7 +17,7 @@ CFG = dict(
          "violation; the many-block output is also compared with the Lean model. Non-trivial = at least one record was emitted; distinct by input line.",
     nontrivial=["records"],
     jobs=seeds(1, 3),
-    lean_files=["Trig", "Pipe", "PipeJudge", "C08", "C09", "Edge", "Emt", "EmtShift", "EmtScan", "EmtLoop", "EmtSim", "EmtRun", "EmtStep", "EmtSafe", "EdgeGlobal", "Auto", "EmtRecs", "PipeProj", "Pipe3"],
+    lean_files=["Trig", "Pipe", "PipeJudge", "C08", "C09", "Edge", "Emt", "EmtShift", "EmtScan", "EmtLoop", "EmtSim", "EmtRun", "EmtStep", "EmtSafe", "EdgeGlobal", "Auto", "EmtRecs", "PipeProj", "Pipe3", "ComposeBlockIndep"],
     trusted_base=_PIPE_TB,
     assumptions=["the kink-fit oracle moves a trigger by at least -1 sample (the real fit: -1, 0 or +1)",
                  "C08_no_oob additionally assumes shift <= +1"],
@@ -52,4 +52,10 @@ THEOREMS = [
     ("DastardV.Lemmas.EmtSim", "DastardV.Trig.sim_loop"),
     ("DastardV.Lemmas.EmtStep", "DastardV.Trig.stepEmt_inv"),
     ("DastardV.Lemmas.EmtLoop", "DastardV.Trig.emtLoop_split"),
+    ("DastardV.Lemmas.ComposeBlockIndep", "DastardV.Compose.emt_file_block_independent"),
+    ("DastardV.Lemmas.ComposeBlockIndep", "DastardV.Compose.emt_file_block_independent_stamped"),
+    ("DastardV.Lemmas.ComposeBlockIndep", "DastardV.Compose.emt_file_block_independent_source"),
+    ("DastardV.Lemmas.ComposeBlockIndep", "DastardV.Compose.records_partition_independent"),
+    ("DastardV.Lemmas.ComposeBlockIndep", "DastardV.Compose.runFull_len_le"),
+    ("DastardV.Lemmas.ComposeBlockIndep", "DastardV.Compose.runFull_times"),
 ]
